@@ -45,7 +45,7 @@ type genCfg struct {
 }
 
 var allOps = []string{"list", "signers", "signvia", "sign", "add", "addhard", "remove", "removeall", "lock", "unlock", "ext", "forward",
-	"advance", "upremove", "upadd", "uplock"}
+	"advance", "upremove", "upadd", "uplock", "close"}
 
 func cfgFor(prop string) genCfg {
 	c := genCfg{prop: prop, maxSteps: 40}
@@ -54,21 +54,21 @@ func cfgFor(prop string) genCfg {
 		c.windows = []string{"past", "current", "current", "future", "lapsing", "lapsing", "starting", "zero", "forever", "above_maxint", "va_above"}
 		c.keyids = []string{"touchless", "touch", "free_text", "hw_firefighter"}
 		//          list sgnrs via sign add addh rm rmall lock unl ext fwd adv uprm upadd uplock
-		c.weights = []int{16, 8, 4, 10, 10, 10, 5, 1, 1, 1, 0, 0, 14, 6, 3, 2}
+		c.weights = []int{16, 8, 4, 10, 10, 10, 5, 1, 1, 1, 0, 0, 14, 6, 3, 2, 0}
 	case "C08":
 		c.windows = []string{"current", "current", "forever", "past", "lapsing"}
 		c.keyids = []string{"touchless", "touch", "free_text"}
-		c.weights = []int{12, 6, 3, 8, 7, 7, 6, 3, 12, 14, 2, 2, 1, 1, 1, 1}
+		c.weights = []int{12, 6, 3, 8, 7, 7, 6, 3, 12, 14, 2, 2, 1, 1, 1, 1, 3}
 		c.faults = 0.35
 	case "C09":
 		c.windows = []string{"current", "current", "forever", "past", "lapsing"}
 		c.keyids = keyIDClasses
-		c.weights = []int{16, 10, 6, 12, 12, 8, 8, 2, 1, 1, 0, 0, 3, 2, 4, 0}
+		c.weights = []int{16, 10, 6, 12, 12, 8, 8, 2, 1, 1, 0, 0, 3, 2, 4, 0, 0}
 		c.dual = true
 	default: // C10
 		c.windows = []string{"current", "current", "forever", "past", "future", "lapsing"}
 		c.keyids = []string{"touchless", "touch", "cached", "free_text", "nonce", "missing_field"}
-		c.weights = []int{12, 6, 5, 12, 10, 14, 8, 2, 2, 2, 5, 8, 3, 3, 3, 1}
+		c.weights = []int{12, 6, 5, 12, 10, 14, 8, 2, 2, 2, 5, 8, 3, 3, 3, 1, 1}
 		c.faults = 0.5
 	}
 	return c
@@ -131,6 +131,12 @@ func genS(prop string) func(r *sim.Rng, tier string) any {
 				}
 				if op == "add" && r.Bool(0.2) {
 					st.N = int64(2 * r.Range(5, 500))
+				}
+				if op == "add" && r.Bool(0.15) {
+					st.Flags = 1 // confirm-before-use constraint
+				}
+				if (op == "sign" || op == "remove") && r.Bool(0.3) {
+					st.Arg = "agentkey" // pass the key as *agent.Key (format + blob), as the wire server does
 				}
 				if op == "upremove" {
 					st.Role = pick(r, p.Keys).Role
